@@ -726,6 +726,57 @@ def gen_method_purity(sources):
 
 
 
+# ----------------------------------------------------------------------------------------------
+# what IndxIO.save does to its file object (C12): the sequence of file operations, in source order
+# ----------------------------------------------------------------------------------------------
+def gen_indx_fileops(indx_src):
+    """every call in IndxIO.save that touches the file parameter: methods of it (`f.write`, `f.tell`, `f.seek`,
+    `f.truncate`, ...) and calls it is handed to (`arr.tofile(f)`, `numpy.save(f, ...)`, `os.ftruncate(f.fileno())`).
+    A use of the file that is not a call (aliasing it, storing it) is outside the subset."""
+    t = ast.parse(indx_src)
+    save = None
+    for n in t.body:
+        if isinstance(n, ast.ClassDef) and n.name == "IndxIO":
+            for m in n.body:
+                if isinstance(m, ast.FunctionDef) and m.name == "save":
+                    save = m
+    if save is None:
+        raise Unsupported("IndxIO.save not found")
+    fname = save.args.args[0].arg
+    ops = []
+    accounted = set()
+
+    def mentions(e):
+        return any(isinstance(x, ast.Name) and x.id == fname for x in ast.walk(e))
+
+    for c in ast.walk(save):
+        if isinstance(c, ast.Call):
+            f = c.func
+            if isinstance(f, ast.Attribute) and isinstance(f.value, ast.Name) and f.value.id == fname:
+                ops.append((c.lineno, c.col_offset, f.attr))
+                accounted.add(id(f.value))
+            args = list(c.args) + [k.value for k in c.keywords]
+            for a in args:
+                if isinstance(a, ast.Name) and a.id == fname:
+                    name = f.attr if isinstance(f, ast.Attribute) else (f.id if isinstance(f, ast.Name) else "?")
+                    ops.append((c.lineno, c.col_offset, name + "(file)"))
+                    accounted.add(id(a))
+                elif mentions(a) and not (isinstance(a, ast.Call) and isinstance(a.func, ast.Attribute)
+                                            and isinstance(a.func.value, ast.Name) and a.func.value.id == fname):
+                    raise Unsupported("the file object inside an argument expression")
+    for x in ast.walk(save):
+        if isinstance(x, ast.Name) and x.id == fname and id(x) not in accounted and not isinstance(x.ctx, ast.Param):
+            if isinstance(x.ctx, ast.Store):
+                raise Unsupported("the file parameter is re-bound")
+            raise Unsupported("the file object is used outside a call (line %d)" % x.lineno)
+    ops.sort()
+    names = [o[2] for o in ops]
+    return ("-- GENERATED by tools/translate.py from IndxIO.save in src/catii/indxio.py: every operation on the file object,\n"
+            "-- in source order (loops listed once); do not edit\n"
+            "namespace Catii.Gen\n\n"
+            "def saveFileOps : List String := [%s]\n\nend Catii.Gen\n" % ", ".join(lean_str(n) for n in names)), names
+
+
 def write_if_changed(path, text):
     try:
         if open(path, encoding="utf-8").read() == text:
@@ -757,6 +808,12 @@ def main():
         write_if_changed(os.path.join(GEN, "Purity.lean"), text)
     except (Unsupported, SyntaxError, KeyError) as e:
         print("translate: aggregate constructors outside translatable subset: %s" % e, file=sys.stderr)
+        status = 3
+    try:
+        text, _ops = gen_indx_fileops(rd("indxio.py"))
+        write_if_changed(os.path.join(GEN, "IndxFileOps.lean"), text)
+    except (Unsupported, SyntaxError, KeyError, IndexError) as e:
+        print("translate: IndxIO.save uses its file object outside the translatable subset: %s" % e, file=sys.stderr)
         status = 3
     try:
         text, n = gen_method_purity([("ffuncs", rd("ffuncs.py")), ("xfuncs", rd("xfuncs.py"))])
